@@ -393,6 +393,9 @@ impl<'l, T: Debug> OrderedLocalQueue<'l, T> {
         if let Some(val) = self.pop_local() {
             return Some(val);
         }
+        // nothing left locally: whatever the counter says is stale (siblings stole from
+        // this queue), and a stale counter would stop this queue from stealing below
+        self.len.store(0, Ordering::Release);
         if self.try_lock() {
             //尝试从其他本地队列steal
             let local_queues = &self.shared.local_queues;
